@@ -140,6 +140,27 @@ def run(ctx):
                                                                              'Z': rowsstr(Z), 'validate': r, 'want': first})
         if len(kern) < 120 and S.shape[1] <= 16:
             kern.append((S, X, Z, r))
+        # the same operators through BasicCode (Pauli strings; cached matrices keyed on code equality):
+        # equal operator sets in other orders occur throughout this history
+        if len(S) and len(X) and len(Z):
+            ps, px, pz = (tuple(pt.bsf_to_pauli(M)) for M in (S, X, Z))
+            bc = BasicCode(ps, px, pz)
+            try:
+                bc.validate()
+                r2 = 'Ok'
+            except QecsimError as e:
+                r2 = MSG.get(str(e), 'QecsimError:' + str(e))
+            except ValueError:
+                r2 = 'ErrSplit'
+            except Exception as e:  # noqa
+                r2 = 'ERR ' + exc_class(e)
+            rep = {'stabilizers': ps, 'logical_xs': px, 'logical_zs': pz, 'BasicCode.validate': r2, 'matrix validate': r}
+            if r2 != r:
+                ctx.violation('basiccode-validate', 'BasicCode built from the same operators validates differently '
+                              '(after the earlier codes of this run)', rep)
+            if not (np.array_equal(bc.stabilizers, S) and np.array_equal(bc.logical_xs, X)
+                    and np.array_equal(bc.logical_zs, Z) and np.array_equal(bc.logicals, np.vstack([X, Z]))):
+                ctx.violation('basiccode-matrices', 'BasicCode matrices are not the bsf of the strings it was given, in order', rep)
         return r
 
     nmax = ctx.pick(8, 10)
